@@ -100,10 +100,15 @@ def render(case, abs_path):
             return s.replace(".", "%2e")
         if s in (".", "..") and enc == "mixedcase":
             return s.replace(".", "%2E", 1).replace(".", "%2e")
+        if s in (".", "..") and enc in ("dblpctdot", "dblboth"):
+            return s.replace(".", "%252e")
         return urllib.parse.quote(s)
     parts = [e(s) for s in segs]
     if enc == "pctslash" and len(parts) >= 2:
         parts = parts[:-2] + [parts[-2] + "%2f" + parts[-1]]
+    if enc in ("allpctslash", "dblpctslash", "dblboth"):
+        # every separator escaped (once / twice): the whole target is one segment on the wire
+        return "/" * case["lead"] + {"allpctslash": "%2F", "dblpctslash": "%252F", "dblboth": "%252f"}[enc].join(parts)
     return "/" * case["lead"] + "/".join(parts)
 
 
@@ -196,7 +201,10 @@ def run_one(tmpl, case, method, frontend, leak_marker=b"SECRET outside the root"
     finally:
         shutil.rmtree(base, ignore_errors=True)
     # twin: the same method on the normalised path
-    if rec["effect"] or not rec["refused"]:
+    if case["norm"] == ["LITERAL"]:
+        rec["neffect"] = rec["effect"]
+        rec["ncls"] = rec["cls"]
+    elif rec["effect"] or not rec["refused"]:
         base2 = tmpl.fresh()
         try:
             root2 = os.path.join(base2, "data")
